@@ -348,3 +348,44 @@ def canonicalise(fn, bound):
         elif isinstance(n, ast.arg) and n.arg in ren:
             n.arg = ren[n.arg]
     return new
+
+
+def fold_module_constants(mod_tree, fn):
+    """Copy of `fn` in which loads of module-level names bound (once) to str/bytes/int constants — or to `+`
+    concatenations of such — are replaced by the constant.  `x == _BACKSLASH` then reads as `x == '\\\\'`: naming a
+    literal does not change what a rule sees."""
+    import copy
+
+    consts = {}
+    counts = {}
+    for s in mod_tree.body:
+        if isinstance(s, ast.Assign) and len(s.targets) == 1 and isinstance(s.targets[0], ast.Name):
+            counts[s.targets[0].id] = counts.get(s.targets[0].id, 0) + 1
+
+    def ev(e):
+        if isinstance(e, ast.Constant) and isinstance(e.value, (str, bytes, int)) and not isinstance(e.value, bool):
+            return e.value
+        if isinstance(e, ast.Name) and e.id in consts:
+            return consts[e.id]
+        if isinstance(e, ast.BinOp) and isinstance(e.op, ast.Add):
+            a, b = ev(e.left), ev(e.right)
+            if a is not None and b is not None and type(a) is type(b):
+                return a + b
+        return None
+
+    for s in mod_tree.body:
+        if isinstance(s, ast.Assign) and len(s.targets) == 1 and isinstance(s.targets[0], ast.Name) and counts[s.targets[0].id] == 1:
+            v = ev(s.value)
+            if v is not None:
+                consts[s.targets[0].id] = v
+    if not consts:
+        return fn
+    local = {n.id for n in ast.walk(fn) if isinstance(n, ast.Name) and isinstance(n.ctx, ast.Store)} | {a.arg for a in ast.walk(fn) if isinstance(a, ast.arg)}
+
+    class R(ast.NodeTransformer):
+        def visit_Name(self, n):
+            if isinstance(n.ctx, ast.Load) and n.id in consts and n.id not in local:
+                return ast.copy_location(ast.Constant(value=consts[n.id]), n)
+            return n
+
+    return R().visit(copy.deepcopy(fn))
